@@ -1564,6 +1564,9 @@ class LangServer:
         present_conf_files = [
             os.path.isfile(os.path.join(self.root_path, f)) for f in default_conf_files
         ]
+        # A configuration file that was explicitly asked for but does not exist
+        if not present_conf_files[0] and self.config != ".fortlsrc":
+            self.post_message(f"Configuration file '{self.config}' not found")
         if not any(present_conf_files):
             return None
 
@@ -1577,6 +1580,8 @@ class LangServer:
         try:
             with open(config_path) as jsonfile:
                 config_dict = json5.load(jsonfile)
+                if not isinstance(config_dict, dict):
+                    raise ValueError("the top level must be a JSON object")
 
                 # Include and Exclude directories
                 self._load_config_file_dirs(config_dict)
@@ -1597,8 +1602,8 @@ class LangServer:
         except FileNotFoundError:
             self.post_message(f"Configuration file '{self.config}' not found")
 
-        # Erroneous json file syntax
-        except ValueError as e:
+        # Erroneous json file syntax or option values of the wrong type
+        except (ValueError, TypeError, AttributeError) as e:
             msg = f'Error: "{e}" while reading "{self.config}" Configuration file'
             self.post_message(msg)
 
@@ -1663,8 +1668,8 @@ class LangServer:
         )
 
     def _load_config_file_preproc(self, config_dict: dict) -> None:
-        self.pp_suffixes = config_dict.get("pp_suffixes", None)
-        self.pp_defs = config_dict.get("pp_defs", {})
+        self.pp_suffixes = config_dict.get("pp_suffixes", self.pp_suffixes)
+        self.pp_defs = config_dict.get("pp_defs", self.pp_defs)
         if isinstance(self.pp_defs, list):
             self.pp_defs = {key: "" for key in self.pp_defs}
 
